@@ -12,7 +12,7 @@ BASELINE = ('cd /repo && /venv/bin/python -m pytest -ra -q -p no:cacheprovider -
 CHECKS = {
  'C13': ('exploration',
          'exhaustive enumeration of finite input spaces against an independent reference',
-         'All 65 536 half-float patterns (directly and through every sensor slot of the lighthouse '
+         'Also: quaternion norms between one and two quantisation steps from 1 (1.0015, 1.0019, 1.003 and their mirrors). All 65 536 half-float patterns (directly and through every sensor slot of the lighthouse '
          'angle-stream decoder), every integer wire unit and half step across and beyond the int16 range for '
          'compressed-trajectory coordinates/yaw, all 256x101 colour/intensity pairs and all anchor counts are '
          'enumerated completely; the quaternion codec is enumerated over a stated lattice only.',
@@ -21,7 +21,7 @@ CHECKS = {
 
  'C07': ('model_checking',
          'explicit enumeration of all registration tables / mutation scripts / packet sequences up to a bound on the real dispatcher, against a reference table model',
-         'Part D (threads): the real dispatcher thread and a user thread under the controlled scheduler, a scheduling point at every line of the dispatcher class, 12 configurations (user adds / removes a registration while a callback removes itself / adds / removes / does nothing), every vector of <= 2 (thorough 3) deviations. The real _IncomingPacketHandler.run() is executed for all 256 headers x 1088 registrations and for every '
+         ' Part D (threads): the real dispatcher thread and a user thread under the controlled scheduler, a scheduling point at every line of the dispatcher class, 12 configurations (user adds / removes a registration while a callback removes itself / adds / removes / does nothing), every vector of <= 2 (thorough 3) deviations. The real _IncomingPacketHandler.run() is executed for all 256 headers x 1088 registrations and for every '
          'registration list up to length 3 (quick) / 4 (thorough) in which each callback performs one scripted table '
          'mutation or raises, over 4 packet sequences; every execution is compared with an independent reference '
          'model of the table (exactly-once, table order, no non-matching delivery, survival after raise, removal '
@@ -59,7 +59,7 @@ CHECKS = {
          'DESIGN.md §3 C02', 'E3'),
  'C14': ('exploration',
          'exhaustive enumeration of field alphabets and of every single-byte corruption against independent reference codecs',
-         'Every image family the library writes or parses is driven on the real element classes through a byte-array device '
+         'Also: a non-black colour stored as black in a zero-time LED step; deck records with undecodable name bytes next to well-formed ones. Every image family the library writes or parses is driven on the real element classes through a byte-array device '
          'memory (YAML managers through a temp directory) over complete cross products of stated finite alphabets (EEPROM: '
          'both versions x 4 channels x 3 speeds x 81 float32 trim pairs x 7 addresses; 1-wire: every single-element length '
          '0..253 per id, ordered id pairs x lengths 0..30^2, triples, 45 header combinations; lighthouse: 16 base stations x '
@@ -88,7 +88,7 @@ CHECKS = {
          'DESIGN.md §3 C10', 'E3'),
  'C20': ('exploration',
          'exhaustive enumeration of the URI grammar product and of driver lists against an independent parser',
-         'Library calls that start threads run under a 60 s real-time bound (a tree on which close()/connect() never returns yields VIOLATION hang:*, not a hanging check). Also: every ordered pair of dongle plug states for serial-number ids (parse, replug, parse again) and the serial driver enabled without pyserial. Every URI of the radio grammar product (11 dongle ids incl. case-varied and all-digit serials, channels 0..125, 3 '
+         'Also: init_drivers() called again with the serial driver switched on. Library calls that start threads run under a 60 s real-time bound (a tree on which close()/connect() never returns yields VIOLATION hang:*, not a hanging check). Also: every ordered pair of dongle plug states for serial-number ids (parse, replug, parse again) and the serial driver enabled without pyserial. Every URI of the radio grammar product (11 dongle ids incl. case-varied and all-digit serials, channels 0..125, 3 '
          'rates, 363 address strings of every length 1..10 in three letter cases, 4 omitted-field shapes, 8 query strings) '
          'goes through the real RadioDriver.parse_uri and a stated subset through get_link_driver onto a scripted USB dongle '
          '(settings in force at each transmission are observed); scan_interface for 13 addresses over scripted populations; '
@@ -112,7 +112,7 @@ CHECKS = {
          'DESIGN.md §3 C06', 'E3'),
  'C08': ('exploration',
          'exhaustive enumeration of argument alphabets, protocol versions and headers against an independent reference decoder',
-         'Also: every ordered pair (thorough: every ordered triple of the Commander/HighLevelCommander commands) of the 31 commands issued one after the other on one Crazyflie object - each judged as if issued alone, and a packet object already handed to the link must not be rewritten by a later command. Every public command encoder of Commander, HighLevelCommander, Localization, Extpos, PlatformService and '
+         'Also: vector arguments given as float64 arrays and passed three times (arrays unchanged, every packet decodes alike). Also: every ordered pair (thorough: every ordered triple of the Commander/HighLevelCommander commands) of the 31 commands issued one after the other on one Crazyflie object - each judged as if issued alone, and a packet object already handed to the link must not be rewritten by a later command. Every public command encoder of Commander, HighLevelCommander, Localization, Extpos, PlatformService and '
          'LoPoAnchor is executed on the real Crazyflie object with a recording link behind the real send_packet size check: '
          'one-argument-at-a-time over full float/fixed-point/integer alphabets (incl. float32 overflow threshold, +-inf, '
          'nan, int16 borders), full cross products over reduced alphabets, all argument pairs, protocol versions on both '
@@ -138,7 +138,7 @@ CHECKS = {
          'DESIGN.md §3 C04', 'E3'),
  'C05': ('model_checking',
          'exhaustive enumeration of variable lists/periods/values plus explicit-state BFS of the log-block life cycle on the real code, plus schedule exploration of SyncLogger',
-         'Thread-free harness (real Crazyflie + real dispatcher loop pumped synchronously + SimCF): 123 variable lists '
+         'Also: packet objects handed to the link must still read the same after the later messages of a block creation; decoded samples are held and compared after later packets. Thread-free harness (real Crazyflie + real dispatcher loop pumped synchronously + SimCF): 123 variable lists '
          '(every stored x fetch type, default fetch, 0..27 one-byte variables, payloads 24..28 bytes, ids above 255, a '
          'missing name at each position, raw-memory variables) x periods on both sides of each limit: acceptance rule, '
          'nothing sent when rejected, create/append messages decoded by the device model (same variables, once, in order, '
@@ -166,7 +166,7 @@ CHECKS = {
          'DESIGN.md §3 C11', 'E3'),
  'C15': ('exploration',
          'exhaustive enumeration of a stated finite grid of directions/poses against references written in the check',
-         'Also: views of the 24 exact cube rotations, their 576 products and exact quaternions whose scalar part is exactly zero; every sequence of up to 3 (thorough 4) uses of one Pose object out of {forward, inverse, compose, inverse-compose, views, scale x2, scale x0.5, copy.copy} with the rigid-motion laws re-checked after every step. Complete over a stated finite grid: all V1 directions of a +-80 x +-55 degree grid (5 degree steps quick, 1 degree '
+         'Also: decks beside and behind the base station for the solver projection. Also: views of the 24 exact cube rotations, their 576 products and exact quaternions whose scalar part is exactly zero; every sequence of up to 3 (thorough 4) uses of one Pose object out of {forward, inverse, compose, inverse-compose, views, scale x2, scale x0.5, copy.copy} with the rigid-motion laws re-checked after every step. Complete over a stated finite grid: all V1 directions of a +-80 x +-55 degree grid (5 degree steps quick, 1 degree '
          'thorough) including +-1e-9/1e-6/1e-3 rad, a V2 grid, a rotation x translation lattice (identity, quarter and '
          'half turns, tiny and near-pi rotations, generic literals) with all ordered pose pairs and all triples of a fixed '
          'sub-set, and every lattice combination of base-station pose, deck position, Crazyflie rotation and sensor for '
@@ -178,7 +178,7 @@ CHECKS = {
          'DESIGN.md §3 C15', 'enumeration'),
  'C16': ('exploration',
          'exhaustive enumeration of a stated finite grid of misalignments/layouts/scale factors against 4x4-matrix references',
-         'Complete over a stated finite grid: 17 856 (thorough 97 776) generating misalignments below 30 degrees and 3 m, '
+         'Also: aligner samples passed as 2-D float arrays (must not be modified). Complete over a stated finite grid: 17 856 (thorough 97 776) generating misalignments below 30 degrees and 3 m, '
          'alone and composed with half turns about X, Y, Z, x 12 reference layouts (1 or 3 x-axis points, 1/2/4 plane '
          'points, exact or +-1 mm) x 3 constellations, plus large rotations for the rigid-motion clauses only; all grid '
          'combinations of both scaling entry points over 4 (8) factors; the deck-diagonal constant. Real aligner and scaler '
@@ -188,7 +188,7 @@ CHECKS = {
          'DESIGN.md §3 C16', 'enumeration'),
  'C18': ('model_checking',
          'bounded exhaustive exploration of stream fragmentations, packet sequences and router/receiver interleavings on the real CPX code',
-         'Also: every interleaving of the socket send calls of 2 and 3 application threads (whole frames must result), and delivery of packets behind a rejected one. Complete codec alphabet (4x4x7x2 headers x payload lengths 0-64 and boundary lengths, all 65 536 header byte pairs '
+         'Also: the caller\'s CRTP packet is unchanged by send_packet and sending the same object again puts the same bytes on the wire (TCP and UART). Also: every interleaving of the socket send calls of 2 and 3 application threads (whole frames must result), and delivery of packets behind a rejected one. Complete codec alphabet (4x4x7x2 headers x payload lengths 0-64 and boundary lengths, all 65 536 header byte pairs '
          'against an independent reference); every stream of 1-4 packets up to 14 (quick) / 18 (thorough) bytes under all '
          '2^(n-1) recv fragmentations through the real SocketTransport.readPacket, long frames under all single cuts and all '
          'compositions of the leading bytes; all packet sequences of length <= 4/5 over three functions plus a bad-version '
@@ -212,7 +212,7 @@ CHECKS = {
          'DESIGN.md §3 C19', 'E3'),
  'C17': ('exploration',
          'exhaustive enumeration of motion programs up to a length bound with deviation-bounded exploration of setpoint-thread schedules in virtual time',
-         'Also: two complete flights (take_off, program, land, take_off, program, land) on one helper object for programs of length <= 1 (thorough 2), each flight judged on its own, the second from where the first ended; velocity commands without any streamed setpoint are a violation. The real MotionCommander (with its setpoint thread) and PositionHlCommander run on a recording Crazyflie stub under '
+         'Also: two commanders in the air at the same time (each stream judged on its own); a link that is busy for 0.5 s inside one setpoint transmission. Also: two complete flights (take_off, program, land, take_off, program, land) on one helper object for programs of length <= 1 (thorough 2), each flight judged on its own, the second from where the first ended; velocity commands without any streamed setpoint are a violation. The real MotionCommander (with its setpoint thread) and PositionHlCommander run on a recording Crazyflie stub under '
          'the controlled scheduler with virtual time. Every program of up to 2 (thorough 3) primitives from an alphabet of 26 '
          'MotionCommander and 15 PositionHlCommander primitives (all directions, distances, velocities, turns, circles, '
          'start_*/stop, go_to, default and landing-height changes), in context-manager and explicit form, with an exception '
@@ -243,7 +243,7 @@ CHECKS = {
          'DESIGN.md §3 C12', 'E1'),
  'C09': ('exploration',
          'exhaustive enumeration of a stated finite lattice of rooms on the real matcher/estimator/solver pipeline against ground truth from an independent projector',
-         'The real LighthouseSampleMatcher.match -> LighthouseInitialEstimator.estimate -> LighthouseGeometrySolver.solve '
+         'Also: 40 (thorough 400) rooms solved after an estimate() call on a corrupt recording with the same station ids failed half-way. The real LighthouseSampleMatcher.match -> LighthouseInitialEstimator.estimate -> LighthouseGeometrySolver.solve '
          'pipeline is executed on every room of a finite lattice (4 224 rooms quick, 33 444 thorough): 2-6 base stations on 8 '
          'asymmetric corner/wall spots at 1.5/2.5/4 m with non-axis-aligned aim offsets; 4 id assignments up to id 15; 5 '
          'linkable visibility graphs and all two-component / isolated-station / single-station unlinkable systems; '
